@@ -248,3 +248,26 @@ impl<V> DotBuilder for MethodMatcher<V> {
         Some(node_name)
     }
 }
+
+#[cfg(feature = "verif")]
+impl<T> MethodMatcher<T> {
+    /// Canonical (sorted) rendering of the matcher state (verification hook)
+    pub fn verif_snapshot(&self) -> String {
+        let mut methods: Vec<String> = self.methods.iter().map(|(m, matcher)| format!("{m:?}=>{}", matcher.verif_snapshot())).collect();
+        methods.sort();
+        let mut excluded: Vec<String> = self
+            .exclude_methods
+            .iter()
+            .map(|(m, matcher)| format!("{m:?}=>{}", matcher.verif_snapshot()))
+            .collect();
+        excluded.sort();
+
+        format!(
+            "ME{{count:{},any:{},methods:[{}],exclude:[{}]}}",
+            self.count,
+            self.any_method.verif_snapshot(),
+            methods.join(","),
+            excluded.join(",")
+        )
+    }
+}
